@@ -243,8 +243,8 @@ def obs(vc):
     # the engine's sensor store holds the sensing AGENTS (Scenario.stepForward: ray.put(sensor_agent)); the measurement model lives on the agent's sensor
     sensors = {10: vc.new(SA + "SensingAgent", _sensors=_NS(measurement="M10")), 11: vc.new(SA + "SensingAgent", _sensors=_NS(measurement="M11"))}
     when = _NS(isoformat=lambda timespec=None: "ISO-NOW")
-    eng = vc.new(CE + "CentralizedTaskingEngine", _importer_db=_NS(getData=lambda q: list(rows)), _sensor_store=sensors, _observations=[], _saved_observations=[],
-                 _realtime_obs=False, target_list=[1, 2], sensor_list=[10, 11], _reward=_NS(metrics=[1]), logger=SF.NullLogger())
+    eng = vc.new(CE + "CentralizedTaskingEngine", _importer_db=_NS(getData=lambda q: list(rows)), _sensor_store=sensors, _observations=[_NS(tag="observation-of-the-previous-epoch", sensor_id=10, target_id=1, julian_date=0.0, measurement=None)],
+                 _saved_observations=[], _realtime_obs=False, target_list=[1, 2], sensor_list=[10, 11], _reward=_NS(metrics=[1]), logger=SF.NullLogger())
     out = eng.loadImportedObservations(when)
     vc.ensure("O-C19-obs.loaded", [o.tag for o in out] == ["a", "c", "b"] and out[0].measurement == "M10" and out[1].measurement == "M10" and out[2].measurement == "M11")
     eng.assess("PRIOR", when)
